@@ -134,6 +134,7 @@ def gen_scenario(rng, kind=None):
     if kind == "vtu":
         for side in ("res", "ref"):
             sides[side]["permuted"] = rng.random() < 0.5
+            sides[side]["pseed"] = rng.randrange(2 ** 30)
     sc["res"], sc["ref"] = sides["res"], sides["ref"]
     # ---- options
     o = {"rtol": [], "atol": [], "include": None, "exclude": None, "ign_src": rng.random() < 0.3, "ign_ref": rng.random() < 0.3,
@@ -220,14 +221,21 @@ def write_side(path_base, kind, D, state, rng_seed):
     if kind == "csv":
         write_csv(path, [c[0] for c in D["cols"]], [c[2] for c in D["cols"]])
         return path
-    pts, cells, pf, cf = D["pts"], D["cells"], [tuple(f) for f in D["pf"]], [tuple(f) for f in D["cf"]]
-    if D.get("permuted"):
-        pts, cells, pf, cf = permute_mesh(random.Random(rng_seed), pts, cells, pf, cf)
+    pts, cells, pf, cf = written_mesh(D, rng_seed)
     pf = [(n, t, c, [float(v) if t.startswith("Float") else v for v in vals]) for n, t, c, vals in pf]
     cf = [(n, t, c, [float(v) if t.startswith("Float") else v for v in vals]) for n, t, c, vals in cf]
     cfg = V.Cfg(random.Random(rng_seed).choice(["ascii", "binary", "appended-base64"]))
     V.write_vtu(path, pts, cells, pf, cf, cfg)
     return path
+
+
+def written_mesh(D, fallback_seed=0):
+    """points, cells and fields in the order in which they are written to the file"""
+    import random
+    pts, cells, pf, cf = D["pts"], D["cells"], [tuple(f) for f in D["pf"]], [tuple(f) for f in D["cf"]]
+    if D.get("permuted"):
+        pts, cells, pf, cf = permute_mesh(random.Random(D.get("pseed", fallback_seed)), pts, cells, pf, cf)
+    return pts, [(t, list(c)) for t, c in cells], pf, cf
 
 
 def argv_for(sc, res, ref, junit=None):
@@ -334,10 +342,12 @@ def dom_equal(sc):
     r, s = sc["res"], sc["ref"]
     if sc["kind"] == "csv":
         return r["nrows"] == s["nrows"]
-    if r.get("moved") or s.get("moved"):
+    if r["pts"] != s["pts"] or r["cells"] != s["cells"]:     # (both sides start from one truth mesh; only points are moved)
         return False
-    if sc["opts"].get("no_reorder") and (r.get("permuted") or s.get("permuted")):
-        return False
+    if sc["opts"].get("no_reorder"):
+        if (r.get("permuted") and "pseed" not in r) or (s.get("permuted") and "pseed" not in s):
+            return False                                    # replay of an old scenario: permutation seed unknown
+        return written_mesh(r)[:2] == written_mesh(s)[:2]   # without reordering the stored order itself has to agree
     return True
 
 
@@ -415,9 +425,7 @@ def model_expr(sc, impl):
         if sc["kind"] == "csv":
             dom = D["nrows"]
         else:
-            dom = (1 if D.get("moved") else 0) + (2 if side == "res" else 4) * (1 if (o.get("no_reorder") and D.get("permuted")) else 0)
-            if side == "ref" and D.get("moved"):
-                dom = 7
+            dom = 0 if (side == "res" or dom_equal(sc)) else 7
         return f"(RData {ds(side, fl, dom)})"
 
     def targs(which):
